@@ -27,8 +27,9 @@ META = dict(
               "compared with the log emitted by the model's scripts, and the theorems' computable hypotheses are evaluated on the "
               "recorded traces) + deep before/after snapshots around every public call of random call sequences on the implementation",
     level_text="partial: purity, cleaning, history independence and repeatability are proved for every script of the stated shape on the "
-               "model, with the behaviour of one State object as explicit interface hypotheses (C01's cache theorems; proved for a "
-               "concrete memo table). That the CODE's calls have these shapes is checked per run on recorded traces inside Coq, and the "
+               "model, with the behaviour of one State object as an explicit interface; that interface is PROVED for the State model of C01 "
+               "on every well-formed graph and purity / cleaning / history independence are re-stated over State objects reachable from "
+               "init_store with the hypothesis gone (C13_*_state; coq/theories/Compose, docs/Compose-api.md). That the CODE's calls have these shapes is checked per run on recorded traces inside Coq, and the "
                "property itself is searched on the real code: random sequences of fit / estimate / personalize (3 algorithms) / simulate "
                "/ save / load on all shipped kinds with bit-exact snapshots of model.parameters, hyper-parameters, population variables, "
                "state._values, caller DataFrame / Data / Dataset / AlgorithmSettings / IndividualParameters, repeat-call identity and "
